@@ -198,6 +198,25 @@ Theorem C06_reads_linearisable_oci :
 Proof. exact reads_linearisable_oci. Qed.
 Print Assumptions C06_reads_linearisable_oci.
 
+(* the decision of a Push is taken in one atomic step reading the content map: at every
+   reachable configuration it is the one the sequential execution of the commit log takes
+   (memory store, file store; false for the OCI store: C06_repush_refused_oci_racing_refuted) *)
+Theorem C06_push_decision_linearisable_memory : forall (progs : list (list op)) (sched : list nat),
+  let cf := mconf_run (mconf_init progs) sched in
+  let q := fst (run mem_step mem_init (map snd (c_log cf))) in
+  forall d c, snd (mem_step (c_store cf) (Push d c)) = snd (mem_step q (Push d c)).
+Proof. exact push_decision_linearisable_memory. Qed.
+Print Assumptions C06_push_decision_linearisable_memory.
+
+Theorem C06_push_decision_linearisable_file :
+  forall (fx ig ov : bool) (progs : list (list op)) (sched : list nat),
+  Forall untitled (concat progs) ->
+  let cf := fconf_run fx ig ov (fconf_init progs) sched in
+  let q := fst (runf (file_step fx ig ov) file_init (map snd (fc_log cf))) in
+  forall d c, snd (file_push_store fx ig ov (fc_store cf) d c) = snd (file_push_store fx ig ov q d c).
+Proof. exact push_decision_linearisable_file. Qed.
+Print Assumptions C06_push_decision_linearisable_file.
+
 (* OCI Tags: at every reachable configuration the set of names listed is the one the sequential
    execution of the commit log lists *)
 Theorem C06_tags_linearisable_oci :
